@@ -110,6 +110,7 @@ fn main() {
     }
     let mut kv = vec![("property", json::s(&prop)), ("tier", json::s(if thorough { "thorough" } else { "quick" })), ("seed", J::N(seed as i64))];
     kv.extend(ctx.meta.into_iter());
+    kv.push(("observation_lost", J::N(core::OBSERVATION_LOST.load(std::sync::atomic::Ordering::Relaxed) as i64)));
     kv.push(("impl_failures", J::A(ctx.impl_failures)));
     kv.push(("shards", J::A(ctx.shards)));
     std::fs::write(out.join("meta.json"), json::obj(kv).to_string()).unwrap();
